@@ -61,6 +61,8 @@ impl<T> BlockNode<T> {
     fn set(&self, index: usize, v: T) {
         unsafe {
             let data = self.data.get_unchecked(index & BLOCK_MASK);
+            #[cfg(may_verif)]
+            crate::verif::point("slot.write", data as *const _ as usize, index as u64);
             data.value.get().write(MaybeUninit::new(v));
         }
     }
@@ -232,6 +234,9 @@ impl<T> Queue<T> {
                         // we have to wait if there is enough data
                         // if no any more produce, this will be a dead loop
                         while pop_index >= self.tail.index.load(Ordering::Acquire) {
+                            #[cfg(may_verif)]
+                            crate::verif::sleep(std::time::Duration::from_millis(10));
+                            #[cfg(not(may_verif))]
                             std::thread::sleep(std::time::Duration::from_millis(10));
                         }
                     }
@@ -387,6 +392,9 @@ impl<T> Queue<T> {
                         // except for the ABA situation
                         // if no any more data pushed, this will be a dead loop
                         while end > self.tail.index.load(Ordering::Acquire) {
+                            #[cfg(may_verif)]
+                            crate::verif::sleep(std::time::Duration::from_millis(10));
+                            #[cfg(not(may_verif))]
                             std::thread::sleep(std::time::Duration::from_millis(10));
                         }
                     }
